@@ -1,7 +1,8 @@
 #!/bin/bash
-# rebuild coq + extracted driver (development helper)
-cd /verif/coq && timeout 1800 make -j16 2>&1 | grep -v "^COQ\|Closed under" | tail -20
-cd /verif && python3 -c "
+# rebuild coq + extracted driver (development helper) in the worktree this script lives in
+R="$(cd "$(dirname "$(readlink -f "$0")")/.." && pwd)"
+cd "$R/coq" && timeout 1800 make -j16 2>&1 | grep -v "^COQ\|Closed under" | tail -20
+cd "$R" && python3 -c "
 import sys; sys.path.insert(0,'tools')
 import importlib.machinery, importlib.util
 loader = importlib.machinery.SourceFileLoader('check', 'tools/check'); spec = importlib.util.spec_from_loader('check', loader); m = importlib.util.module_from_spec(spec); loader.exec_module(m)
